@@ -107,6 +107,10 @@ def sigOk (st : St) (name : Nat) (key : Nat) : SigRef → Bool
 
 def reset (st : St) : St := { st with step := .waiting }
 
+/-- the name (number) of the accessory itself: its key pair is stored in the same database under this name, so a
+    controller that claims it is refused (F16 repair; before it the pairing replaced the accessory's key pair) -/
+def ownName : Nat := 0
+
 /-- the proof an `m3` must carry: made for this connection, this client key, with the right code — and, when sessions
     are renewed, for the session of the CURRENT exchange -/
 def proofOk (renew : Bool) (c : Nat) (st : St) (a : Nat) : Proof → Bool
@@ -146,7 +150,8 @@ def stepR (fixed renew : Bool) (c : Nat) (st : St) : In → St × Out × Save
           | .badLen _ => (reset st, .tlv 6 (some 2) false false false, none)
           | .pk kn =>
             if sigOk st name kn sig then
-              ({ st with step := .exchResp }, .tlv 6 none false false true, some (name, kn))
+              if name = ownName then (reset st, .tlv 6 (some 1) false false false, none)   -- F16 repair
+              else ({ st with step := .exchResp }, .tlv 6 none false false true, some (name, kn))
             else (reset st, .tlv 6 (some 2) false false false, none)
 
 def step (fixed : Bool) (c : Nat) (st : St) (i : In) : St × Out × Save := stepR fixed true c st i
